@@ -1295,7 +1295,11 @@ impl ASN1Value {
                 if let ASN1Value::ElsewhereDeclaredValue { identifier, .. } = &**value {
                     if let Some((_, tld)) = tlds
                         .iter()
-                        .find(|(_, tld)| tld.has_enum_value(None, identifier))
+                        .find(|(_, tld)| tld.has_enum_value(type_name, identifier))
+                        .or_else(|| {
+                            tlds.iter()
+                                .find(|(_, tld)| tld.has_enum_value(None, identifier))
+                        })
                     {
                         **value = ASN1Value::EnumeratedValue {
                             enumerated: tld.name().clone(),
@@ -1308,7 +1312,11 @@ impl ASN1Value {
             (ASN1Type::Enumerated(_), ASN1Value::ElsewhereDeclaredValue { identifier, .. }) => {
                 if let Some((_, tld)) = tlds
                     .iter()
-                    .find(|(_, tld)| tld.has_enum_value(None, identifier))
+                    .find(|(_, tld)| tld.has_enum_value(type_name, identifier))
+                    .or_else(|| {
+                        tlds.iter()
+                            .find(|(_, tld)| tld.has_enum_value(None, identifier))
+                    })
                 {
                     *self = ASN1Value::EnumeratedValue {
                         enumerated: tld.name().clone(),
